@@ -64,8 +64,24 @@ func VerifC05Deadlock(h *verifh.H) {
 					_ = hub.Store.ExecuteTransaction(vTxn("core.Dataset", "A", tag))
 				case 7:
 					_ = hub.Store.ExecuteTransaction(vTxn("core.Dataset", nameB, tag))
+				case 8:
+					// the public namespaces of dataset A are changed by writing its meta-entity to
+					// core.Dataset (what PATCH-ing the dataset entity through the API does)
+					nsi, err := hub.Store.NamespaceManager.GetDatasetNamespaceInfo()
+					if err != nil {
+						return
+					}
+					meta, err := hub.Store.GetEntity(nsi.DatasetPrefix+":A", []string{"core.Dataset"}, true)
+					if err != nil || meta == nil {
+						return
+					}
+					meta.Properties[nsi.PublicNamespacesKey] = []interface{}{"http://example.com/pub-" + tag + "/"}
+					_ = hub.Dsm.GetDataset("core.Dataset").StoreEntities([]*Entity{meta})
 				}
 			}
+		}
+		if h.Param("locks", 0) == 1 {
+			h.SymbolicLocks() // preempt before every lock acquisition of /repo code, not only the marked ones
 		}
 		h.SymbolicSched(h.Param("preemptions", 2))
 		h.SymbolicMapOrder(h.Param("mapOrders", 0))
